@@ -1006,8 +1006,9 @@ def oracle_run(scn, r):
                         'sig': {'shape': 'other'}})
             continue
         b = scn['blocks'][k]
-        if (seq[2][1] == 'cancelled' and 'K' not in b.get('flags', '') and b['kind'] in ('async', 'aplain')
-                and seq[2][2] - t_clean < b.get('sto', 0)):
+        own_len = (b.get('cdur', 0) if b['kind'] == 'async' else 0) + b.get('sdur', 0)
+        if (seq[2][1] == 'cancelled' and b['kind'] in ('async', 'aplain') and seq[2][2] - t_clean < b.get('sto', 0)
+                and ('K' not in b.get('flags', '') or seq[2][2] - t_clean < own_len)):
             # cancelled although its stop_timeout had not expired: it was not awaited
             out.append({'clause': 'stop_async_awaited_bounded',
                         'what': f'{nm(k)}: stop_async was cancelled {seq[2][2] - t_clean} ms after the clean-up began, '
